@@ -121,6 +121,7 @@ def run(ctx):
     fit_if = A.parent(fit)
     cur = None
     ok = False
+    forelse = False
     if inner and isinstance(fit_if, ast.If) and fit_if.test is fit:
         il = inner[0]
         asg = [s for s in fit_if.body if isinstance(s, ast.Assign) and isinstance(s.targets[0], ast.Name)]
@@ -131,6 +132,13 @@ def run(ctx):
         if asg and brk and over_list and A.src(asg[0].value) == recv and not fit_if.orelse:
             cur = asg[0].targets[0].id
             ok = True
+        elif brk and over_list and not fit_if.orelse and isinstance(fit.func.value, ast.Name) \
+                and fit.func.value.id in A.name_targets(il.target) and il.orelse \
+                and any(create is x for s_ in il.orelse for x in ast.walk(s_)):
+            # for/else search: the loop variable itself is the record, `else` runs exactly when nothing accepted
+            cur = fit.func.value.id
+            ok = True
+            forelse = True
     rep.ob('P1', K.key(cls, '__iter__', 'first-fit:accepting-bucket-recorded-and-search-stops'), ok, fit,
            '' if ok else 'when an open bucket accepts the element the search must record that bucket and stop (break): '
            'otherwise the element is appended to several buckets or a new bucket is created as well')
@@ -142,9 +150,14 @@ def run(ctx):
     cg = [(t, b) for t, b in flow.guards_of(create, loop)]
     under_none = any(isinstance(t, ast.Compare) and A.is_name(t.left, cur) and isinstance(t.ops[0], ast.Is)
                      and A.is_const(t.comparators[0], None) and b for t, b in cg) and len(cg) == 1
-    rep.ob('P1', K.key(cls, '__iter__', 'creation-iff-no-open-bucket-accepted'), bool(pre) and under_none, create,
-           '' if pre and under_none else 'a new bucket must be created exactly when the search found none '
-           '(`%s = None` before the search, creation under `if %s is None`)' % (cur, cur))
+    if forelse:
+        only_break = all(isinstance(s_, ast.Break) for s_ in fit_if.body)
+        rep.ob('P1', K.key(cls, '__iter__', 'creation-iff-no-open-bucket-accepted'), only_break, create,
+               '' if only_break else 'in the for/else search the accepting branch must only `break`')
+    else:
+        rep.ob('P1', K.key(cls, '__iter__', 'creation-iff-no-open-bucket-accepted'), bool(pre) and under_none, create,
+               '' if pre and under_none else 'a new bucket must be created exactly when the search found none '
+               '(`%s = None` before the search, creation under `if %s is None`)' % (cur, cur))
     # the created bucket is the one appended, paired with the creation index
     cstmt = A.parent(create)
     ok = isinstance(cstmt, ast.Assign) and A.is_name(cstmt.targets[0], cur) and isinstance(apps[0].args[0], ast.Tuple) \
@@ -536,5 +549,8 @@ def run(ctx):
         rep.ob('P2', K.key(cls, '__iter__', 'yields-the-whole-bucket'), ok, y, '' if ok else 'a yield emits %s' % A.short(y.value))
     srt = [n for n in A.walk_local(fn) if isinstance(n, ast.Assign) and isinstance(n.value, ast.Call)
            and A.dotted(n.value.func) == 'sorted']
-    ok = all(is_data(n.targets[0]) and n.value.args and is_data(n.value.args[0]) for n in srt)
+    def data_expr(e):
+        # a data variable, or the data list of a bucket read in place
+        return is_data(e) or (isinstance(e, ast.Attribute) and e.attr == 'data')
+    ok = all(is_data(n.targets[0]) and n.value.args and data_expr(n.value.args[0]) for n in srt)
     rep.ob('P2', K.key(cls, '__iter__', 'sorting-preserves-the-multiset'), ok, srt[0] if srt else fn, '')
